@@ -72,6 +72,7 @@ SpacerBits(tokens, k) == IF tokens = <<>> THEN {}
                          ELSE IF Head(tokens) = 100 THEN {k - 1} \cup SpacerBits(Tail(tokens), k)
                          ELSE SpacerBits(Tail(tokens), k + 1)
 RuneRec(r) ==
+  IF "printPanic" \in DOMAIN r THEN Chk("C32.printTotal", FALSE, r.n) ELSE
   LET n == Len(r.name) IN
   /\ Chk("C32.name", RuneOfName(r.name) = r.n /\ \A i \in 1..n : r.name[i] \in 0..25, r)
   /\ Chk("C32.parse", r.back.st = "ok" /\ r.back.n = r.n, r.back)
